@@ -82,7 +82,7 @@ def parseFaults (opts : List (String × String)) : List Fault :=
   | some s => (s.splitOn ",").map parseFault
   | none => []
 
-/-- delete-call failure mask from `m=i:f,j:c` and `crash=n`. -/
+/-- delete-call failure mask from `m=i:f,j:c,k:u` and `crash=n`. -/
 def parseMask (opts : List (String × String)) : Nat → DelOutcome :=
   let entries : List (Nat × DelOutcome) :=
     match opt opts "m" with
@@ -90,6 +90,8 @@ def parseMask (opts : List (String × String)) : Nat → DelOutcome :=
         match e.splitOn ":" with
         | [i, "f"] => some (atou i, DelOutcome.fail)
         | [i, "c"] => some (atou i, DelOutcome.failCas)
+        -- `u`: the engine answers "outcome unknown" and the delete did NOT land: not applied, a non-CAS error
+        | [i, "u"] => some (atou i, DelOutcome.fail)
         | _ => none)
     | none => []
   let crash : Option Nat := (opt opts "crash").map atou
